@@ -256,3 +256,68 @@ contract(F, 'EventDict.__call__', props=('C14',), params={'self': 'self', 'key':
          note='numeric values (the quantifier of C14); one representative key name: the function does '
               'not inspect the name. A value that is a function is called with the event, a tuple is '
               'wrapped as arrayed_param: those two branches are exercised by the bounded driver only')
+
+
+# ---- the stream player's step: EventStreamPlayer._play_and_delta (C14) -----------------------------------
+# "a rest played by an event stream sends nothing"; "plays event k at its start time plus the sum of the
+# preceding deltas": one step plays the event exactly once iff the player is not muted and the event is
+# not a rest, and hands the clock the event's delta as a NUMBER (a Rest used as delta is unwrapped).
+FE = 'sc3/seq/eventstream.py'
+IS_REST = z3.Bool('event_is_rest')
+
+
+def esp_getattr(eng, obj, name, st, node):
+    if obj.k == 'obj' and obj.oid == 'outevent' and name == 'play':
+        def play(eng, args, kwargs, st, node):
+            st.trace.append(('play',))
+            return [(st, NONE)]
+        return [(st, V('func', py=('spec', play)))]
+    if obj.k == 'module' and name == 'Rest':
+        return [(st, V('class', py='Rest'))]
+    return None
+
+
+def esp_call(kind):
+    def h(eng, f, args, kwargs, st, node):
+        if f.k == 'obj' and f.oid == 'outevent' and len(args) == 1 and args[0].k == 'str':
+            st.trace.append(('lookup', args[0].py))
+            if kind == 'number':
+                return [(st, vreal(z3.Real('the_delta')))]
+            return [(st, V('ref', cls='RestDelta', oid='rest-delta',
+                           extra={'isinstance': {'Rest': z3.BoolVal(True), 'Operand': z3.BoolVal(True)}}))]
+        return None
+    return h
+
+
+def is_rest_pol(eng, selfv, args, kwargs, st, node):
+    ok = len(args) == 1 and args[0].k == 'obj' and args[0].oid == 'outevent'
+    st.trace.append(('is-rest-asked', ok))
+    return [(st, vbool(IS_REST))]
+
+
+def esp_post(kind):
+    def post(c):
+        plays = [e for e in c.trace if e[0] == 'play']
+        looks = [e for e in c.trace if e[0] == 'lookup']
+        muted = c.pre.self._is_muted
+        should_play = z3.And(z3.Not(muted), z3.Not(IS_REST))
+        r = c.result
+        want = z3.Real('the_delta') if kind == 'number' else z3.Real('rest-delta.value')
+        return z3.And(z3.BoolVal(len(plays) <= 1 and len(looks) == 1 and looks[0][1] == 'delta'),
+                      z3.BoolVal(len(plays) == 1) == should_play,          # played once iff audible
+                      r == want)                                            # the clock gets the event's delta, as a number
+    return post
+
+
+for kind in ('number', 'rest'):
+    contract(FE, 'EventStreamPlayer._play_and_delta', props=('C14',),
+             params={'self': 'self', 'outevent': 'obj'},
+             ensures=[('played-once-iff-not-muted-and-not-a-rest;returns-the-delta-as-a-number', esp_post(kind))],
+             modifies=[], fields={'EventStreamPlayer': {'_is_muted': 'bool'}, 'RestDelta': {'value': 'real'}},
+             hooks={'getattr': esp_getattr, 'call': esp_call(kind)},
+             policies={'sc3/seq/event.py::is_rest': is_rest_pol},
+             class_modules={'EventStreamPlayer': FE, 'RestDelta': F}, native=False)
+    from vf.pyvc.spec import REGISTRY
+    key = '%s::EventStreamPlayer._play_and_delta#delta-is-a-%s' % (FE, kind)
+    REGISTRY[key] = REGISTRY.pop('%s::EventStreamPlayer._play_and_delta' % FE)
+    REGISTRY[key].key = key
